@@ -7,7 +7,7 @@ drv = sorted(f[:-5] for f in os.listdir(os.path.join(L, "SparseSpace", "Drive"))
 exes = ["drv_" + d.lower() for d in drv]
 out = ['name = "SparseSpace"', 'version = "0.1.0"',
        "defaultTargets = [" + ", ".join('"%s"' % t for t in ["SparseSpace"] + exes) + "]", "",
-       "[[lean_lib]]", 'name = "SparseSpace"', 'globs = ["SparseSpace.Model.+", "SparseSpace.Lemmas.+", "SparseSpace.Properties.+", "SparseSpace.Drive.+"]', ""]
+       "[[lean_lib]]", 'name = "SparseSpace"', 'globs = ["SparseSpace.Generated.+", "SparseSpace.Model.+", "SparseSpace.Lemmas.+", "SparseSpace.Properties.+", "SparseSpace.Drive.+"]', ""]
 for d, e in zip(drv, exes):
     out += ["[[lean_exe]]", 'name = "%s"' % e, 'root = "SparseSpace.Drive.%s"' % d, ""]
 open(os.path.join(L, "lakefile.toml"), "w").write("\n".join(out))
